@@ -44,6 +44,9 @@ def gen_program(rng: random.Random, *, max_entities=5, max_initial=24, allow_cra
                 h["cancel"] = [rng.randrange(1000) for _ in range(rng.randint(1, 2))]
             if rng.random() < 0.15:
                 h["sched"] = [gen_emit(rng, n_ent, n_kinds, allow_past)]
+            if shape == "list" and rng.random() < 0.12:
+                # the handler re-times (and maybe re-targets) the very Event object it received and returns it again
+                h["reuse"] = {"dt": rng.choice(DT_CHOICES_NS), "to": rng.choice([None, rng.randrange(n_ent)])}
             if crashable and rng.random() < 0.15:
                 h["crash"] = [rng.choice(crashable)]
             if crashable and rng.random() < 0.2:
@@ -177,9 +180,12 @@ class ScriptEntity(Entity):
         meta = event.context["metadata"]
         seen_before = meta.get("seen", 0)
         meta["seen"] = seen_before + 1
-        if seen_before:
+        if seen_before != meta.get("reuse_hops", 0):
             r.problems.append(("event-metadata-not-fresh", f"event {event.event_type} arrived with seen={seen_before}"))
             return None
+        if seen_before:
+            # a re-used event object: logged as its own delivery (uid, -(1+hop))
+            r.log[-1] = (uid, -(1 + seen_before), r.log[-1][2], r.log[-1][3])
         k = int(event.event_type[1:])
         h = r.prog["handlers"].get(f"{self.idx}:{k}")
         if h is None:
@@ -201,7 +207,16 @@ class ScriptEntity(Entity):
             return None
         if h["shape"] == "one":
             return created[0] if created else None
-        return list(reversed(created)) if h.get("rev") else created
+        out = list(reversed(created)) if h.get("rev") else created
+        ru = h.get("reuse")
+        if ru and r.fuel > 0 and seen_before < 2:
+            r.fuel -= 1
+            event.time = Instant(now + max(0, ru["dt"]))
+            if ru.get("to") is not None:
+                event.target = r.entities[ru["to"]]
+            meta["reuse_hops"] = seen_before + 1
+            out = out + [event]
+        return out
 
     def _process(self, uid: int, h: dict):
         r = self.r
